@@ -169,24 +169,26 @@ Definition locate_table (dbid : oid) (schema name : pystr) : M oid :=
             end
   end.
 
+(* TableGroupBlueprint.build: the loop that resolves the item names *)
+Fixpoint group_items (dbid : oid) (l : list pyv) (acc : list oid) : M (list oid) :=
+  match l with
+  | [] => ret acc
+  | PVStr tn :: rest =>
+      let comps := split_on 46%N tn in
+      let '(sc, tb) := match comps with
+                       | [a; b] => (a, b)
+                       | c0 :: _ => (K "public", c0)
+                       | [] => (K "public", [])
+                       end in
+      do! t <- locate_table dbid sc tb ;; do! h <- get_heap ;;
+      if list_has (table_eqb h) t acc then raise EValidation else group_items dbid rest (acc ++ [t])
+  | _ :: _ => stuck 412
+  end.
+
 Definition build_group (dbid : oid) (bp : pyv) : M oid :=
   match bp with
   | PVBlue 11 d =>
-      do! items <-
-        (fix go (l : list pyv) (acc : list oid) : M (list oid) :=
-           match l with
-           | [] => ret acc
-           | PVStr tn :: rest =>
-               let comps := split_on 46%N tn in
-               let '(sc, tb) := match comps with
-                                | [a; b] => (a, b)
-                                | c0 :: _ => (K "public", c0)
-                                | [] => (K "public", [])
-                                end in
-               do! t <- locate_table dbid sc tb ;; do! h <- get_heap ;;
-               if list_has (table_eqb h) t acc then raise EValidation else go rest (acc ++ [t])
-           | _ :: _ => stuck 412
-           end) (flist_of d "items") [] ;;
+      do! items <- group_items dbid (flist_of d "items") [] ;;
       do! nt <- lift (note_text_of d "note") ;;
       do! n <- (match nt with
                 | NAnone => ret None
